@@ -176,6 +176,12 @@ Eval(C, e, st0) ==
                     IF Bad(r.st) THEN r
                     ELSE IF r.v.t # "bool" THEN RV(VVoid, Fault(r.st, "stuck:type"))
                     ELSE RV(VBool(IsTrue(r.v)), r.st)
+          ELSE IF HasDev(C, "NATIVE_VAR_OPERAND_READ_LATE") /\ e.a[1].k = "var" THEN
+               \* the C compiler reads a plain variable operand after it has evaluated the other operand
+               LET r == Eval(C, e.a[2], st) IN
+               IF Bad(r.st) THEN r
+               ELSE LET l == Eval(C, e.a[1], r.st) IN
+                    IF Bad(l.st) THEN l ELSE BinApply(C, e.s, l.v, r.v, l.st)
           ELSE LET l == Eval(C, e.a[1], st) IN                     \* left operand first (4.9)
                IF Bad(l.st) THEN l
                ELSE LET r == Eval(C, e.a[2], l.st) IN
@@ -373,7 +379,8 @@ Exec(C, s, st0) ==
                  ELSE LET arm == s.arms[CHOOSE k \in hits : \A j \in hits : k <= j]
                           n == Len(r.st.env)
                           b == ExecSeq(C, arm.b, 1, [r.st EXCEPT !.env = Append(@, [n |-> arm.bind, v |-> r.v])]) IN
-                      IF HasDev(C, "INTERP_RETURN_IN_MATCH_ARM") /\ b.sig = "r"
+                      IF (HasDev(C, "INTERP_RETURN_IN_MATCH_ARM") /\ b.sig = "r")
+                         \/ (HasDev(C, "NATIVE_BREAK_IN_MATCH") /\ b.sig = "b")       \* C switch: break leaves the match only
                       THEN RS("n", VVoid, [b.st EXCEPT !.env = SubSeq(b.st.env, 1, n)])
                       ELSE [b EXCEPT !.st.env = SubSeq(b.st.env, 1, n)]
      [] OTHER -> RS("n", VVoid, Fault(st, "stuck:stmt"))
